@@ -182,6 +182,81 @@ fn run_small_u32(c: usize, r: usize, ctx: &mut Ctx) {
     }
 }
 
+/// Arrays that were not built in one piece: grown row by row / column by column, shrunk, emptied and
+/// regrown, reinterpreted with swap_dimensions, and arrays that survived a caught panic in a caller's
+/// iterator or a leaked drain. Whatever array is left must round-trip.
+fn run_histories(c: usize, r: usize, ctx: &mut Ctx) {
+    use crate::engine::ledger::{self, FaultIter};
+    let n = c * r;
+    for h in 0..10usize {
+        ctx.case(
+            || format!("TooDee<u32> {}x{} built by history #{}", c, r, h),
+            |cs| {
+                let base: Vec<u32> = (0..n as u32).map(|i| i * 7 + 1).collect();
+                let mut t: TooDee<u32> = TooDee::from_vec(c, r, base.clone());
+                match h {
+                    0 => {
+                        t = TooDee::with_capacity(3);
+                        for y in 0..r {
+                            t.push_row(base[y * c..(y + 1) * c].to_vec());
+                        }
+                    }
+                    1 => {
+                        t = TooDee::default();
+                        for x in 0..c {
+                            t.push_col((0..r).map(|y| base[y * c + x]).collect::<Vec<_>>());
+                        }
+                    }
+                    2 => {
+                        let _ = t.pop_row().map(|d| d.count());
+                        let h2 = t.num_rows();
+                        t.push_col(vec![9u32; h2]);
+                    }
+                    3 => {
+                        while t.pop_col().is_some() {}
+                        t.push_row(vec![1u32, 2, 3]);
+                        t.insert_col(1, vec![5u32]);
+                    }
+                    4 => t.swap_dimensions(),
+                    5 => {
+                        t.clear();
+                        t.push_col(vec![4u32, 5]);
+                    }
+                    6 | 7 => {
+                        // a caught panic in the caller's iterator (first next() of an insertion at the front / in the middle)
+                        let items: Vec<u32> = vec![77; if h == 6 { c.max(1) } else { r.max(1) }];
+                        ledger::arm(1);
+                        let _ = guarded(|| {
+                            if h == 6 {
+                                t.insert_row(0, FaultIter::new(items))
+                            } else {
+                                t.insert_col(c.min(1), FaultIter::new(items))
+                            }
+                        });
+                        ledger::disarm();
+                    }
+                    8 => {
+                        if c > 0 {
+                            std::mem::forget(t.remove_col(0));
+                        }
+                    }
+                    _ => {
+                        if r > 0 {
+                            let mut d = t.remove_row(0);
+                            let _ = d.next();
+                            std::mem::forget(d);
+                        }
+                    }
+                }
+                cs.nontrivial((c, r, h));
+                cs.outcome("history");
+                let what = format!("array left by history #{} (size {:?})", h, t.size());
+                round_trips::<TooDee<u32>, u32>(&t, &t, cs, &what);
+            },
+        );
+    }
+}
+
 fn run_views(pc: usize, pr: usize, ctx: &mut Ctx) {
     for (s, e) in windows(pc, pr) {
         ctx.case(
@@ -259,6 +334,7 @@ impl Prop for C18P {
         } else {
             run_type::<u32>(c, r, ctx);
             run_small_u32(c, r, ctx);
+            run_histories(c, r, ctx);
             run_type::<i64>(c, r, ctx);
             run_type::<String>(c, r, ctx);
             run_type::<Option<u8>>(c, r, ctx);
@@ -270,7 +346,7 @@ impl Prop for C18P {
         }
     }
     fn rule(&self) -> String {
-        "every shape (0..=N)^2 incl. (0,0), 1xN, Nx1 (plus one long row and one long column); element types u32 (all assignments of {0,1,MAX} for up to 4 cells, rotating samples above), i64 (MIN/MAX/beyond 2^53), String (empty, quotes, backslash, control characters, non-ASCII, NUL, strings equal to field names), Option<u8>, Vec<u8>, [u8;2], (i8,bool); exact and spare capacity; \
+        "every shape (0..=N)^2 incl. (0,0), 1xN, Nx1 (plus one long row and one long column); element types u32 (all assignments of {0,1,MAX} for up to 4 cells, rotating samples above), i64 (MIN/MAX/beyond 2^53), String (empty, quotes, backslash, control characters, non-ASCII, NUL, strings equal to field names), Option<u8>, Vec<u8>, [u8;2], (i8,bool); exact and spare capacity; arrays built by histories (grown by rows / columns, shrunk, emptied and regrown, swap_dimensions, and the array left by a caught panic in an insertion's iterator or by a leaked drain); \
          ALL 4 x 4 combinations of {to_string,to_vec,to_writer,to_value} with {from_str,from_slice,from_reader,from_value}: the result must be Ok and equal to the original (dimensions, cells, ==). \
          Views: every window of every parent up to NxN through TooDeeView and TooDeeViewMut (and a nested view): the deserialised array must equal TooDee::from(view). \
          A case is (element type, shape, filling) or (parent, window), each covering the 16 transport pairs; distinct by the tuple; all are non-trivial."
